@@ -59,6 +59,9 @@ type RPlan struct {
 	Drop *int              `json:"drop"` // LMTP: answers sent before the connection breaks (absent or >= 3: no break)
 	Src  string            `json:"src"`  // body source / transfer fault: "" | ok | noopen | readfail | reset
 	Late int               `json:"late"` // list position whose RCPT reply is overdue (0 = none)
+	// list position after whose AddRcpt the message is put in quarantine (MsgMetadata.Quarantine set as
+	// a body-stage check would; 0 = never, = len(rcpts): between the last AddRcpt and the body step)
+	Quar int `json:"quar"`
 }
 
 type RTxn struct {
@@ -207,6 +210,50 @@ func (b failingBuffer) Open() (io.ReadCloser, error) {
 func (b failingBuffer) Len() int      { return len(b.data) }
 func (b failingBuffer) Remove() error { return nil }
 
+// wireTwins: the list holds two addresses that differ as given and may coincide on the wire (the
+// IDN recipient as U-label and as A-label). The scripted next hop cannot tell them apart by
+// address then, so their replies are scripted by position (RCPT command number on the wire /
+// number among the accepted recipients) instead.
+func wireTwins(rcpts []string) bool {
+	u, a := false, false
+	for _, id := range rcpts {
+		u = u || id == "idn"
+		a = a || id == "idn_ace"
+	}
+	return u && a
+}
+
+func hasID(rcpts []string, id string) bool {
+	for _, x := range rcpts {
+		if x == id {
+			return true
+		}
+	}
+	return false
+}
+
+func positional(sc *scripted.SMTPTxn, utf8 bool, rcpts []string, p RPlan) {
+	for _, id := range []string{"idn", "idn_ace"} {
+		forms := []string{addrOfID[id]}
+		if ascii, err := address.ToASCII(addrOfID[id]); err == nil {
+			forms = append(forms, ascii)
+		}
+		for _, f := range forms {
+			delete(sc.RcptFor, f)
+			delete(sc.LMTPDotFor, f)
+		}
+	}
+	for _, id := range rcpts {
+		if !utf8 && id == "nl" { // never reaches the wire
+			continue
+		}
+		sc.Rcpt = append(sc.Rcpt, replyFor(p.Rcpt[id], 451, 550))
+		if r, ok := p.Rcpt[id]; !ok || r == "ok" {
+			sc.LMTPDot = append(sc.LMTPDot, replyFor(p.St[id], 451, 550))
+		}
+	}
+}
+
 func scriptFor(kind string, p RPlan, d string) *scripted.SMTPTxn {
 	t := &scripted.SMTPTxn{RcptFor: map[string]scripted.SMTPReply{}, LMTPDotFor: map[string]scripted.SMTPReply{}}
 	t.ResetInData = p.Src == "reset"
@@ -306,6 +353,19 @@ func runRcptBehaviour(t *testing.T, b RBehaviour, out *bufio.Writer) {
 			}
 			sc := scriptFor(b.Cfg.Kind, b.Txns[i-1].Plan, d)
 			sc.LateRcpt = lateRcptOn(b.Cfg.Kind, b.Cfg.UTF8, b.Txns[i-1].Rcpts, b.Txns[i-1].Plan, d)
+			if b.Cfg.Kind == "lmtp" && wireTwins(b.Txns[i-1].Rcpts) {
+				positional(sc, b.Cfg.UTF8, b.Txns[i-1].Rcpts, b.Txns[i-1].Plan)
+			} else if hasID(b.Txns[i-1].Rcpts, "idn_ace") {
+				// the A-label spelling is itself a recipient of this list (and the U-label one is not):
+				// the replies scripted for it, not those of "idn", belong to that wire address
+				pl := b.Txns[i-1].Plan
+				if r, ok := pl.Rcpt["idn_ace"]; ok {
+					sc.RcptFor[addrOfID["idn_ace"]] = replyFor(r, 451, 550)
+				}
+				if r, ok := pl.St["idn_ace"]; ok {
+					sc.LMTPDotFor[addrOfID["idn_ace"]] = replyFor(r, 451, 550)
+				}
+			}
 			return sc
 		})
 		servers[d] = srv
@@ -379,7 +439,7 @@ func runRcptBehaviour(t *testing.T, b RBehaviour, out *bufio.Writer) {
 		meta := &module.MsgMetadata{ID: fmt.Sprintf("b%dt%d", b.ID, i+1), OriginalFrom: from,
 			SMTPOpts: smtp.MailOptions{UTF8: utf8}}
 		tr.Emit("Txn", vtrace.Ev{"n": i + 1, "rcpts": tx.Rcpts, "plan": map[string]interface{}{
-			"mail": tx.Plan.Mail, "rcpt": tx.Plan.Rcpt, "data": tx.Plan.Data, "st": tx.Plan.St, "drop": dropOf(tx.Plan), "src": srcOf(tx.Plan), "late": tx.Plan.Late}})
+			"mail": tx.Plan.Mail, "rcpt": tx.Plan.Rcpt, "data": tx.Plan.Data, "st": tx.Plan.St, "drop": dropOf(tx.Plan), "src": srcOf(tx.Plan), "late": tx.Plan.Late, "quar": tx.Plan.Quar}})
 		d, err := tgt.Start(ctx, meta, from)
 		if b.Cfg.Kind == "lmtp" {
 			tr.Emit("Ret", vtrace.Ev{"op": "start", "r": "", "res": class(err), "err": errText(err)})
@@ -391,11 +451,14 @@ func runRcptBehaviour(t *testing.T, b RBehaviour, out *bufio.Writer) {
 			continue
 		}
 		accepted := 0
-		for _, id := range tx.Rcpts {
+		for pos, id := range tx.Rcpts {
 			err := d.AddRcpt(ctx, addrOfID[id], smtp.RcptOptions{})
 			tr.Emit("Ret", vtrace.Ev{"op": "addrcpt", "r": id, "res": class(err), "err": errText(err)})
 			if err == nil {
 				accepted++
+			}
+			if tx.Plan.Quar == pos+1 { // what a check of the body stage / a later stage of the pipeline does
+				meta.Quarantine = true
 			}
 		}
 		if accepted == 0 {
